@@ -83,6 +83,13 @@ def gen(tier, rng, shard, nshards):
         if alg == "PowerIteration":
             k, which = 1, "LM"
         cap = S.pick(rng, ["n", "n+4", "default"])
+        if rng.random() < 0.04:
+            # directed: the dominant pair of a small Hermitian definite operator in tiny / huge units through power iteration
+            # (explicitly and as the automatic choice for k = 1, 'LM')
+            n = int(S.pick(rng, [2, 3, 4]))
+            kind, k, which = "herm-definite", 1, "LM"
+            node = gen_matrix(rng, kind, n, dt, float(S.pick(rng, [1e-8, 1e-8, 1e8])))
+            alg = S.pick(rng, [OMIT, "Auto", "PowerIteration"])
         yield {"spec": node, "kind": kind, "k": k, "which": which, "alg": alg, "cap": cap, "fn": S.pick(rng, ["eig", "eig", "eig", "eigmax", "eigmin"]), "reuse": bool(rng.random() < 0.3)}
 
 
